@@ -153,7 +153,11 @@ def c11(run):
     run.mc("MC_PartialMerkle")
     trace, _ = run.exec("C11")
     run.validate("Trace_PartialMerkle", trace)
-    return finish(run, assumptions=MERKLE_ASSUME)
+    # WHICH transactions a filter selects (the index lists of the two filter-driven builders) is decided by the scan
+    # contract of the TxFilter specification: least fixpoint of relevance <= selected <= what the final filter matches
+    trace2, _ = run.exec("C11F")
+    run.validate("Trace_TxFilter", trace2)
+    return finish(run, assumptions=MERKLE_ASSUME + ["filter-induced subsets: data pushes and script classes are environment facts (txscript), as in C10"])
 
 
 # --------------------------------------------------------------------------- C12
